@@ -34,6 +34,32 @@ def cases(draw, tier="quick"):
     n = len(c["contracts"])
     added = [[draw(st.integers(1, 3)), draw(st.sampled_from([1, US, 7 * US, 3600 * US])), draw(st.sampled_from(["Q", "P"])),
               draw(st.integers(0, n - 1)), draw(st.floats(0.5, 2.0))] for _ in range(draw(st.integers(0, 4)))]
+    # observation features: the library's windowed State fed by tabular observation events
+    if draw(st.sampled_from([False, True])):
+        nfeat = draw(st.integers(1, 3))
+        window = draw(st.integers(1, 4))
+        stride = draw(st.sampled_from([None, None, 1, 2]))
+        if stride is not None and stride > window:
+            stride = None
+        c["state"] = ["window", nfeat, window, stride]
+        npts = len(c["gaps"])
+        obs = [[0, 0, [draw(st.floats(-3, 3)) for _ in range(nfeat)]]]     # a first row no later than the first timestep
+        for _ in range(draw(st.integers(1, 10))):
+            gi = draw(st.integers(0, npts - 1))
+            off = draw(st.sampled_from([0, 0, 1, -1, c["latency_us"], c["latency_us"] + 1])) if gi > 0 else 0
+            obs.append([gi, off, [draw(st.floats(-3, 3)) for _ in range(nfeat)]])
+        c["obs"] = obs
+    # folds / warm-up / markov reset
+    if draw(st.sampled_from([False, False, True])):
+        g = E.grid_of(c)
+        a = draw(st.integers(0, max(0, len(g) - 3)))
+        c["fold"] = [g[a] - draw(st.sampled_from([0, 1])), g[-1] + draw(st.sampled_from([0, 1]))]
+        c["markov"] = draw(st.sampled_from([False, False, True])) and c.get("state", ["rec"])[0] == "rec"
+        c["warmup_us"] = draw(st.sampled_from([None, None, 3600 * US, 10 * 86400 * US]))
+        if c.get("state", ["rec"])[0] == "window":
+            c["warmup_us"] = None     # the windowed State needs its first row replayed (it cannot parse an empty queue)
+        nsteps = len(g) - 1 - a
+        cut = min(cut, max(0, nsteps - 1))
     c["cut"] = cut
     c["perturb"] = {"mode": mode, "factors": factors, "drops": drops, "added": added}
     return c
@@ -74,6 +100,8 @@ def perturbed_stream(b, case):
             out.append((ts, kind, [0.0, 0.03, 0.1, -0.01][k % 4]))
         elif kind == "P":
             out.append((ts, kind, (payload[0], payload[1] * f + 1.0)))
+        elif kind == "OBS":
+            out.append((ts, kind, [v * f + 0.5 for v in payload]))
         else:
             out.append((ts, kind, payload))
         if nxt is not None and ts <= nxt:
@@ -95,8 +123,8 @@ def run(case):
     b1 = E.build(case)
     stream2, bound, changed_next, tm = perturbed_stream(b1, case)
     b2 = E.build(case, stream_override=stream2)
-    t1, end1 = E.run_episode(b1.env, case["actions"])
-    t2, end2 = E.run_episode(b2.env, case["actions"])
+    t1, end1 = E.run_episode(b1.env, case["actions"], fold=E.fold_name(case))
+    t2, end2 = E.run_episode(b2.env, case["actions"], fold=E.fold_name(case))
     cut = case["cut"]
     upto = cut + 1            # trace[0] is the reset (timestep 0), trace[j] the step landing on steps[j]
     traded_before = False
@@ -132,6 +160,14 @@ def run(case):
         res.tag("latency>0")
     if case["delay"] > 0:
         res.tag("delay>0")
+    if case.get("state", ["rec"])[0] == "window":
+        res.tag("windowed-observation-state")
+    if case.get("fold"):
+        res.tag("fold")
+    if case.get("markov"):
+        res.tag("markov")
+    if case.get("warmup_us"):
+        res.tag("warm-up")
     return res
 
 
